@@ -159,6 +159,9 @@ __CPROVER_ensures(g_joined == 1 && !T(t->joinable) && g_p->full_buffers_.size ==
 PIPE_FRESH = '__CPROVER_requires(__CPROVER_is_fresh(self, sizeof(*self)) && CFG_OK(self) && self->free_buffers_.size < V_MAXSZ && self->full_buffers_.size < V_MAXSZ && self->buff_num_ <= self->cfg_.buff_max_num)\n'
 SPEC = {
     ('prelude_early',): EARLY, ('prelude',): PRELUDE, ('after_protos',): EXTERN,
+    # stop_signal_ is read by the back end's wait predicate under full_buffers_mutex_: every access needs that mutex
+    # (or happens while no back end exists: before initialize's thread start / after the join)
+    ('guarded_by', 'util_AsyncPipe_Impl'): {'stop_signal_': 'B->full_buffers_mutex_.held == 1 || !T(B->inited_) || T(g_joined)'},
     ('stub', 'Buf_append'): True, ('stub', 'Buf_full'): True, ('stub', 'Buf_data'): True, ('stub', 'Buf_size'): True, ('stub', 'Buf_reset'): True,
     # ---------------- producer
     ('contract', 'Pipe_appendLockless'): PIPE_FRESH + r'''
@@ -258,12 +261,12 @@ __CPROVER_decreases(cfg->buff_min_num - i)
 ''',
     ('contract', 'Pipe_cleanup'): PIPE_FRESH + r'''
 __CPROVER_requires(LOCKS(self, 0, 0, 0, 0) && (T(self->inited_) ==> T(self->backend_thread_.joinable)) && !T(self->stop_signal_))
-__CPROVER_assigns(g_p, g_backend, g_joined, g_joined_free, g_joined_cur, g_hand_state, g_freed, self->stop_signal_, self->backend_thread_.joinable, self->curr_buffer_, self->full_buffers_.size, self->free_buffers_.size, self->buff_num_, self->cb_, self->inited_, v_vec_v_hbuf_cell)
+__CPROVER_assigns(g_p, g_backend, v_noblock_mutex, g_joined, g_joined_free, g_joined_cur, g_hand_state, g_freed, self->full_buffers_mutex_.held, self->stop_signal_, self->backend_thread_.joinable, self->curr_buffer_, self->full_buffers_.size, self->free_buffers_.size, self->buff_num_, self->cb_, self->inited_, v_vec_v_hbuf_cell)
 __CPROVER_ensures(!T(self->inited_) && !T(self->stop_signal_))                                              /* stop request withdrawn: the object can be initialised again */
 __CPROVER_ensures(T(__CPROVER_old(self->inited_)) ==> (self->curr_buffer_ == 0 && self->free_buffers_.size == 0 && self->full_buffers_.size == 0 && !T(self->cb_.engaged) && !T(self->backend_thread_.joinable)))
 __CPROVER_ensures(T(__CPROVER_old(self->inited_)) ==> g_freed == g_joined_free + g_joined_cur)               /* every buffer left after the join is freed */
 ''',
-    ('ghost', 'Pipe_cleanup', 'entry'): 'g_p = self; g_backend = 0; g_freed = 0; g_joined = 0;',
+    ('ghost', 'Pipe_cleanup', 'entry'): 'g_p = self; g_backend = 0; g_freed = 0; g_joined = 0; v_noblock_mutex = 0;',
     ('ghost', 'Pipe_cleanup', 'after_call:v_thread_join:1'): 'g_joined_free = self->free_buffers_.size; g_joined_cur = self->curr_buffer_ != 0 ? 1 : 0;',
     ('loop', 'Pipe_cleanup', 1): r'''
 __CPROVER_assigns(__i1, g_hand_state, g_freed, v_vec_v_hbuf_cell)
@@ -300,3 +303,13 @@ UNITS = [
              clause='cleanup: stop request raised, joined, withdrawn; every buffer freed; object reusable'),
     ], **COMMON),
 ]
+
+
+REPLAY_SOURCES = ['modules/util/async_pipe.cpp']
+def native_replay(u, t, o, w, workdir):
+    """lock-discipline obligations have no single failing input; a failed guarded-by obligation is replayed under ThreadSanitizer"""
+    import replay as rp
+    names = getattr(o, 'name', str(o))
+    if 'v_guarded__' in names or 'v_guard_check' in names:
+        return rp.tsan_attempt('async_pipe_stop_signal', REPLAY_SOURCES, os.path.join(workdir, 'replay'))
+    return {'reproduced': False, 'note': 'no native driver for this obligation'}
